@@ -1404,26 +1404,6 @@ def splitext_contract(wrapper=False):
              "router proof assumes of the uninterpreted splitext are proved on the interpreter's own source")
 
 
-def _drop_unused_decompositions(ex, c, obls):
-    """post-generation hook: z3 gives up (`unknown`, not `sat`) on VCs whose path condition holds TWO decompositions of the same
-    string (p == a + "." + b and p == a' + "/" + b') even when the goal needs only one.  A VC that is already valid WITHOUT the
-    decomposition whose fresh names the goal does not mention is replaced by that stronger VC (fewer hypotheses: implies the
-    original); anything else is left as generated (z3, then cvc5)."""
-    for ob in obls.values():
-        for vc in ob.vcs:
-            used = set(_decls(vc.goal))
-            keep = [h for h in vc.pc if not (any(d.startswith("rfind!") for d in _decls(h)) and
-                                             not any(d.startswith("rfind!") and d in used for d in _decls(h)))]
-            if len(keep) == len(vc.pc):
-                continue
-            so = z3.Solver()
-            so.set("timeout", 1500)
-            so.add(*keep)
-            so.add(z3.Not(vc.goal))
-            if so.check() == z3.unsat:
-                vc.pc = keep
-
-
 def splitext_stdlib(repo, tier):
     """The assumed model `m_splitext` (uninterpreted E / ROOT + `splitext_axioms`) stays the call-site view of os.path.splitext;
     this EXTRA discharges those axioms on the real body of `genericpath._splitext` of the interpreter(s) on this host (the source
@@ -1447,10 +1427,9 @@ def splitext_stdlib(repo, tier):
         reg.add(inner)
         reg.ext_models["genericpath._splitext"] = inner      # what posixpath.splitext calls: the contract verified just below
         for c in (inner, splitext_contract(wrapper=True)):
-            # (z3 gives up on the word equation a + "." + b == a' + "/" + b' of the path with both characters present; cvc5 closes
-            # that VC in ~0.05 s: a short z3 budget only bounds the time wasted before the second solver is asked)
-            rep = verify.run_contract("C07", c, reg, Universe(repo), repo=d, timeout_ms=12000 if tier == "thorough" else 5000,
-                                      executor_cls=SliceExecutor, post_hooks=(_drop_unused_decompositions,))
+            # (every VC is closed by z3 in < 0.1 s: `m_rfind` never leaves two unrelated decompositions of the path on one path)
+            rep = verify.run_contract("C07", c, reg, Universe(repo), repo=d, timeout_ms=60000 if tier == "thorough" else None,
+                                      executor_cls=SliceExecutor)
             if rep.error or rep.out_of_subset:
                 raise ops.Unsupported(f"{d}/{c.target}: {(rep.error or rep.out_of_subset)[:200]}")
             for o in rep.obligations:
